@@ -78,16 +78,20 @@ def array_oracle(steps, init, nrd, nwr, dflt=0):
     return out, mem
 
 
-def check_history(ctx, aw, dw, nrd, nwr, steps, init, label, regports=False):
+def check_history(ctx, aw, dw, nrd, nwr, steps, init, label, regports=False, sims=None, with_passes=True, dflt=0):
+    """dflt: Simulation/FastSimulation default_value; an unwritten word reads as dflt truncated to the memory's width"""
     blk, m = mem_design(aw, dw, nrd, nwr, regports)
     eff = steps if not regports else [{k: 0 for k in steps[0]}] + steps[:-1]
-    want, final = array_oracle(eff, init, nrd, nwr)
+    want, final = array_oracle(eff, init, nrd, nwr, dflt & ((1 << dw) - 1))
+    if dflt:
+        assert not regports and not with_passes
+        sims = [c for c in (sims or SIMS) if c is not pyrtl.CompiledSimulation]
     names = ['rd%d' % k for k in range(nrd)]
     replay = {'kind': 'mem-history', 'aw': aw, 'dw': dw, 'read_ports': nrd, 'write_ports': nwr, 'steps': steps,
-              'init': {str(a): v for a, v in init.items()}, 'label': label, 'registered_ports': regports}
+              'init': {str(a): v for a, v in init.items()}, 'label': label, 'registered_ports': regports, 'default_value': dflt}
     ok = True
-    for simcls in SIMS:
-        real = simrun.run_real(simcls, blk, steps, {}, {m: dict(init)}, 0, track=None)
+    for simcls in (sims or SIMS):
+        real = simrun.run_real(simcls, blk, steps, {}, {m: dict(init)}, dflt, track=None)
         if real['err'] is not None and simcls is pyrtl.CompiledSimulation and aw > 64 and real['err'][1] == 'PyrtlError' \
                 and '64 address bits' in real['err'][2]:
             ctx.violation('mem-unsupported:CompiledSimulation:addrwidth>64',
@@ -116,6 +120,8 @@ def check_history(ctx, aw, dw, nrd, nwr, steps, init, label, regports=False):
                 break
     # the Lean Spec model, and the design after synthesize / optimize evaluated in it
     variants = [('original', blk)]
+    if not with_passes:
+        return ok
     try:
         bs = passlib.run_in(blk, lambda: pyrtl.synthesize(update_working_block=False, block=blk))
         variants.append(('synthesized', bs))
@@ -140,6 +146,140 @@ def check_history(ctx, aw, dw, nrd, nwr, steps, init, label, regports=False):
                 ok = False
                 break
     return ok
+
+
+def repeated_use(ctx, sims=None):
+    """Second and later uses inside one process: a simulator constructed twice on the same block with its default
+    arguments starts from an empty memory again; maps the caller passes are not modified; a view obtained from
+    inspect_mem once follows later writes; CompiledSimulation.run() with several steps at once equals stepping."""
+    rng = ctx.rng
+    n = 0
+    for k in range(ctx.n(4, 30)):
+        aw, dw = rng.choice([2, 4, 9]), rng.choice([8, 8, 64, 72])
+        nrd, nwr = rng.randint(1, 2), rng.randint(1, 2)
+        blk, m = mem_design(aw, dw, nrd, nwr, False)
+        names = ['rd%d' % i for i in range(nrd)]
+        h1 = history(rng, aw, dw, nrd, nwr, 8)
+        h2 = history(rng, aw, dw, nrd, nwr, 8)
+        # the second history reads what the first one wrote
+        hot = [s_['wa0'] for s_ in h1 if s_['we0']]
+        for s_ in h2:
+            if hot and rng.random() < 0.7:
+                s_['ra0'] = rng.choice(hot)
+        user_map = {m: {a: gen.rand_value(rng, dw) for a in hot[:2]}} if k % 2 else None
+        replay = {'kind': 'mem-repeated-use', 'aw': aw, 'dw': dw, 'read_ports': nrd, 'write_ports': nwr, 'first': h1, 'second': h2,
+                  'memory_value_map': None if user_map is None else {str(a): v for a, v in user_map[m].items()}}
+        for simcls in (sims or SIMS):
+            want2, _ = array_oracle(h2, {} if user_map is None else user_map[m], nrd, nwr)
+            try:
+                with pyrtl.set_working_block(blk, no_sanity_check=True):
+                    sim1 = simcls() if user_map is None else simcls(memory_value_map=user_map)
+                    before = None if user_map is None else {a: v for a, v in user_map[m].items()}
+                    view = sim1.inspect_mem(m)
+                    for s_ in h1:
+                        sim1.step(dict(s_))
+                    # the view taken before stepping shows the present contents
+                    _, final1 = array_oracle(h1, {} if user_map is None else user_map[m], nrd, nwr)
+                    for a in hot[:3]:
+                        got = view.get(a, 0) if isinstance(view, dict) else view[a]
+                        if got != final1.get(a, 0):
+                            ctx.violation('mem-view-stale:' + simcls.__name__, '%s: a view obtained from inspect_mem before %d cycles reports word %d = %r, '
+                                          'the array now holds %d' % (simcls.__name__, len(h1), a, got, final1.get(a, 0)),
+                                          dict(replay, simulator=simcls.__name__))
+                            break
+                    if user_map is not None and set(user_map.keys()) != {m}:
+                        ctx.violation('mem-map-modified:' + simcls.__name__, '%s added entries to the memory_value_map passed by the caller' % simcls.__name__,
+                                      dict(replay, simulator=simcls.__name__))
+                    sim2 = simcls() if user_map is None else simcls(memory_value_map={m: dict(before)})
+                    tr = {nm: [] for nm in names}
+                    if simcls is pyrtl.CompiledSimulation and k % 2 == 0:
+                        sim2.run([dict(s_) for s_ in h2])        # all steps in one call
+                        for nm in names:
+                            tr[nm] = list(sim2.tracer.trace[nm])
+                        for iname in h2[0]:
+                            if list(sim2.tracer.trace[iname]) != [s_[iname] for s_ in h2]:
+                                ctx.violation('run-input-trace:CompiledSimulation', 'CompiledSimulation.run() with %d steps at once traces input %s as %r, '
+                                              'the values supplied are %r' % (len(h2), iname, list(sim2.tracer.trace[iname]), [s_[iname] for s_ in h2]),
+                                              dict(replay, simulator=simcls.__name__))
+                                break
+                    else:
+                        for s_ in h2:
+                            sim2.step(dict(s_))
+                            for nm in names:
+                                tr[nm].append(sim2.inspect(nm))
+            except Exception as e:  # noqa
+                ctx.violation('mem-repeated-use-raises:' + simcls.__name__, '%s raised %s when a second simulator was built on the same block: %s' % (
+                    simcls.__name__, type(e).__name__, str(e)[:160]), dict(replay, simulator=simcls.__name__))
+                continue
+            n += 1
+            for c in range(len(h2)):
+                got = [tr[nm][c] for nm in names]
+                if got != want2[c]:
+                    ctx.violation('mem-second-simulation:' + simcls.__name__, '%s: the second simulator built on the same block (%s) reads %r in cycle %d, '
+                                  'a fresh array gives %r' % (simcls.__name__, 'default arguments' if user_map is None else 'same initial map',
+                                                              got, c, want2[c]), dict(replay, simulator=simcls.__name__, cycle=c))
+                    break
+    return n
+
+
+def special_shapes(ctx):
+    """shapes a plain port generator does not produce: write ports whose enable is a constant (0 or 1), and two
+    memories that carry the same user-given name (a helper instantiated twice)"""
+    rng = ctx.rng
+    n = 0
+    for k in range(ctx.n(6, 60)):
+        pyrtl.reset_working_block()
+        dw, aw = rng.choice([4, 8, 70]), 2
+        mems = [MemBlock(dw, aw, 'scratch', asynchronous=True, max_read_ports=None, max_write_ports=None) for _ in range(2)]
+        for j, m in enumerate(mems):
+            wa, wd, we = Input(aw, 'wa%d' % j), Input(dw, 'wd%d' % j), Input(1, 'we%d' % j)
+            m[wa] <<= MemBlock.EnabledWrite(wd, we)
+            ca, cd = Input(aw, 'ca%d' % j), Input(dw, 'cd%d' % j)
+            m[ca] <<= MemBlock.EnabledWrite(cd, Const(j, 1))        # memory 0: constant-0 enable, memory 1: constant-1 enable
+            o = Output(dw, 'rd%d' % j)
+            o <<= m[Input(aw, 'ra%d' % j)]
+        blk = pyrtl.working_block()
+        init = [{a: gen.rand_value(rng, dw) for a in range(4) if rng.random() < 0.6} for _ in mems]
+        steps = []
+        for _ in range(8):
+            st = {}
+            for j in range(2):
+                st.update({'wa%d' % j: rng.randrange(4), 'wd%d' % j: gen.rand_value(rng, dw), 'we%d' % j: rng.randrange(2),
+                           'ca%d' % j: rng.randrange(4), 'cd%d' % j: gen.rand_value(rng, dw), 'ra%d' % j: rng.randrange(4)})
+                if j == 1 and st['we1'] and st['wa1'] == st['ca1']:
+                    st['we1'] = 0          # two enabled ports on one word: unspecified
+            steps.append(st)
+        arrays = [dict(i) for i in init]
+        want = []
+        for st in steps:
+            want.append([arrays[j].get(st['ra%d' % j], 0) for j in range(2)])
+            for j in range(2):
+                if st['we%d' % j]:
+                    arrays[j][st['wa%d' % j]] = st['wd%d' % j]
+                if j == 1:
+                    arrays[j][st['ca%d' % j]] = st['cd%d' % j]
+        replay = {'kind': 'mem-special', 'dw': dw, 'steps': steps, 'init': [{str(a): v for a, v in i.items()} for i in init]}
+        variants = [('original', blk)]
+        try:
+            variants.append(('optimized', passlib.run_in(blk, lambda: pyrtl.optimize(update_working_block=False, block=blk))))
+        except Exception as e:  # noqa
+            ctx.violation('mem-pass-raises', 'optimize raised %s on a memory design: %s' % (type(e).__name__, str(e)[:120]), replay)
+        for vname, vb in variants:
+            vm = sorted({nn.op_param[1] for nn in vb.logic_subset('m@')}, key=lambda m_: m_.id)
+            for simcls in SIMS:
+                real = simrun.run_real(simcls, vb, steps, {}, {vm[j]: dict(init[j]) for j in range(2)}, 0, track=None)
+                n += 1
+                if real['err'] is not None:
+                    ctx.violation('mem-raises:' + simcls.__name__, '%s raised %s on two same-named memories / constant enables (%s): %s' % (
+                        simcls.__name__, real['err'][1], vname, real['err'][2][:100]), dict(replay, simulator=simcls.__name__))
+                    continue
+                for c in range(len(steps)):
+                    got = [real['trace']['rd%d' % j][c] for j in range(2)]
+                    if got != want[c]:
+                        ctx.violation('mem-special:' + simcls.__name__, '%s (%s design), two memories named alike with constant-enable ports, cycle %d: '
+                                      'reads %r, arrays give %r' % (simcls.__name__, vname, c, got, want[c]), dict(replay, simulator=simcls.__name__, cycle=c))
+                        break
+    return n
 
 
 def exhaustive_two_word(ctx):
@@ -209,10 +349,18 @@ def rom_cases(ctx, rng):
             tv = tuple(vals)
             data, pad, defined = (lambda a, tv=tv: tv[a]), False, set(range(size))
         pyrtl.reset_working_block()
-        rom = RomBlock(dw, aw, data, 'rom', asynchronous=True, pad_with_zeros=pad, max_read_ports=None)
+        multi = rng.random() < 0.3       # more read ports than max_read_ports: build_new_roms makes copies of the ROM
+        rom = RomBlock(dw, aw, data, 'rom', asynchronous=True, pad_with_zeros=pad, max_read_ports=2 if multi else None,
+                       build_new_roms=multi)
         ra = Input(aw, 'ra')
         o = Output(dw, 'rd')
         o <<= rom[ra]
+        extra_outs = []
+        if multi:
+            for nm_ in ('rd_b', 'rd_c'):
+                o_ = Output(dw, nm_)
+                o_ <<= rom[ra]
+                extra_outs.append(nm_)
         blk = pyrtl.working_block()
         addrs = list(range(size)) if size <= 8 else [rng.randrange(size) for _ in range(8)]
         for simcls in SIMS:
@@ -224,6 +372,11 @@ def rom_cases(ctx, rng):
                 should_ok = a in defined or pad
                 want = vals[a] if a in defined else 0
                 if should_ok:
+                    if real['err'] is None and any(real['trace'][x_][0] != want for x_ in extra_outs):
+                        ctx.violation('rom-read-copy:' + simcls.__name__, '%s ROM(%s data) read through a port beyond max_read_ports (build_new_roms) at %d '
+                                      '-> %r, romdata[%d] = %d' % (simcls.__name__, kind, a, [real['trace'][x_][0] for x_ in extra_outs], a, want),
+                                      {'kind': 'rom', 'data': kind, 'aw': aw, 'dw': dw, 'addr': a, 'build_new_roms': True})
+                        break
                     if real['err'] is not None or real['trace']['rd'][0] != want:
                         ctx.violation('rom-read:' + simcls.__name__, '%s ROM(%s data) at %d -> %r (err %r), romdata[%d] = %d' % (
                             simcls.__name__, kind, a, real['trace'].get('rd'), real['err'], a, want),
@@ -262,7 +415,12 @@ def rom_cases(ctx, rng):
                 if real['err'] is not None:
                     bad = (a, 'raises %s' % (real['err'][2][:60],), want)
                     break
-                got = real['trace'][outs[0]][0] if len(outs) == 1 else sum(real['trace'][nm][0] << int(nm[nm.index('[') + 1:-1]) for nm in outs)
+                if 'rd' in outs:
+                    got = real['trace']['rd'][0]
+                    if any(real['trace'][x_][0] != got for x_ in outs if x_ in ('rd_b', 'rd_c')):
+                        got = [real['trace'][x_][0] for x_ in outs]
+                else:
+                    got = sum(real['trace'][nm][0] << int(nm[nm.index('[') + 1:-1]) for nm in outs)
                 if got != want:
                     bad = (a, got, want)
                     break
@@ -301,6 +459,12 @@ def main(ctx):
             init = {}
         regports = (k % 4 == 1)
         ok = check_history(ctx, aw, dw, nrd, nwr, steps, init, 'hist#%d' % k, regports)
+        if k % 5 == 3 and aw <= 64:
+            # the same history with a non-zero default_value (sometimes wider than the word): unwritten words read as
+            # its low bits in Simulation and FastSimulation
+            dv = rng.choice([1, (1 << dw) - 1, rng.getrandbits(dw) | 1, rng.getrandbits(dw + 3) | (1 << dw)])
+            ok = check_history(ctx, aw, dw, nrd, nwr, steps, init, 'hist-default#%d' % k, False, with_passes=False, dflt=dv) and ok
+            ctx.count('default_value', 'wider' if dv >> dw else 'fits')
         ctx.count('ports-from-registers', regports)
         agree += ok
         ctx.case((aw, dw, nrd, nwr, len(steps)), nontrivial=True)
@@ -310,6 +474,8 @@ def main(ctx):
         ctx.sample({'aw': aw, 'dw': dw, 'read_ports': nrd, 'write_ports': nwr, 'cycles': len(steps), 'initial_words': len(init)})
         if len(ctx.violations) >= 5:
             break
+    ctx.evaluations += special_shapes(ctx)
+    ctx.evaluations += repeated_use(ctx)
     ex = exhaustive_two_word(ctx)
     ctx.evaluations += ex
     ctx.extra['exhaustive_two_word_transitions'] = ex
